@@ -10,7 +10,7 @@ RULE = ('pairs/triples of canonical angles: remainders from threshold classes (0
         'non-trivial = an owned op whose result differs from all its operands; distinct by (ops, result bits)')
 TRUSTED = TRUSTED_COMMON
 ASSUMPTIONS = ASSUME_COMMON
-S3_LEGS = ['C03_add_assoc (associativity up to 2e-10) is decided by the predicate assoc_total on sampled triples, not by a theorem']
+S3_LEGS = ['associativity of angle addition up to the 2e-10 boundary snap: theorem C03_add_assoc covers the totals; the predicate assoc_total re-decides it on the sampled triples of each run']
 
 def pair_rems(r):
     k = r.below(8)
